@@ -13,26 +13,49 @@
 (***************************************************************************)
 EXTENDS Integers, Sequences, FiniteSets, TLC
 
-CONSTANTS Heights, Rounds, Bids, Stamps   \* finite sets of integers
+CONSTANTS
+  \* @type: Set(Int);
+  Heights,
+  \* @type: Set(Int);
+  Rounds,
+  \* @type: Set(Int);
+  Bids,
+  \* @type: Set(Int);
+  Stamps
 Steps == {1, 2, 3}                         \* propose, prevote, precommit
 
 NoMsg == [h |-> 0, r |-> 0, s |-> 0, bid |-> 0]
 NoRec == [msg |-> NoMsg, ts |-> 0, signed |-> FALSE]   \* state file after key generation
 
 VARIABLES
-  disk,      \* the last-sign record in the state file: [msg, ts, signed]
-  mem,       \* the copy held by the running process
-  up,        \* process is running
-  pend,      \* a fresh signature persisted but not yet released, or NoRec
-  released,  \* history: set of [msg, ts] whose signature has been handed out
-  last       \* the last request and its result (observation)
+  \* the last-sign record in the state file: [msg, ts, signed]
+  \* @type: { msg: { h: Int, r: Int, s: Int, bid: Int }, ts: Int, signed: Bool };
+  disk,
+  \* the copy held by the running process
+  \* @type: { msg: { h: Int, r: Int, s: Int, bid: Int }, ts: Int, signed: Bool };
+  mem,
+  \* process is running
+  \* @type: Bool;
+  up,
+  \* a fresh signature persisted but not yet released, or NoRec
+  \* @type: { msg: { h: Int, r: Int, s: Int, bid: Int }, ts: Int, signed: Bool };
+  pend,
+  \* history: set of [msg, ts] whose signature has been handed out
+  \* @type: Set({ msg: { h: Int, r: Int, s: Int, bid: Int }, ts: Int });
+  released,
+  \* the last request and its result (observation)
+  \* @type: { req: { h: Int, r: Int, s: Int, bid: Int }, ts: Int, res: Str, sig: { msg: { h: Int, r: Int, s: Int, bid: Int }, ts: Int, signed: Bool } };
+  last
 
 vars == <<disk, mem, up, pend, released, last>>
 
+\* @type: ({ h: Int, r: Int, s: Int, bid: Int }) => <<Int, Int, Int>>;
 HRS(m) == <<m.h, m.r, m.s>>
+\* @type: (<<Int, Int, Int>>, <<Int, Int, Int>>) => Bool;
 Less(a, b) == \/ a[1] < b[1]
               \/ a[1] = b[1] /\ a[2] < b[2]
               \/ a[1] = b[1] /\ a[2] = b[2] /\ a[3] < b[3]
+\* @type: (<<Int, Int, Int>>, <<Int, Int, Int>>) => Bool;
 Leq(a, b) == a = b \/ Less(a, b)
 
 Requests == [h : Heights, r : Rounds, s : Steps, bid : Bids] \X Stamps
